@@ -18,7 +18,8 @@ impl DeviceHandler {
         DeviceHandler { devices, io_ports: Box::new(ports) }
     }
     /// A handler that is never consulted (harnesses that replace every device entry point by a contract stub).
-    pub(crate) fn verif_unused() -> Self { DeviceHandler { devices: Vec::new(), io_ports: Box::new([0; DEVICE_SLOTS]) } }
+    pub(crate) fn verif_ports_ptr(&self) -> *const u16 { self.io_ports.as_ptr() }
+    pub(crate) fn verif_unused() -> Self { DeviceHandler::new() }
 }
 
 /// Pointwise representation invariant of the port table at one port (used at symbolic witnesses
